@@ -35,7 +35,9 @@ LIT = (
      'tal:content="x"', '<p tal:content="x">', '<b tal:replace="1">',
      "metal:use-macro", 'i18n:translate=""', "\n", "\n\n", "\t", "  ",
      "é", "日本", "ß", "{", "}", "{}", "}{", "{x}", "$$", "$$$$", "$",
-     "\\", "\\$", "%s", "%(a)s", "</x>", "<x ", " a=b", "]]>", "-->"]
+     "\\", "\\$", "%s", "%(a)s", "</x>", "<x ", " a=b", "]]>", "-->",
+     # an empty pair of braces holds no expression: it is text
+     "${}", "${}", "a${}b"]
 )
 CR = ["\r\n", "\r"]
 LATIN1_OK = [a for a in LIT if all(ord(c) < 256 for c in a)]
